@@ -507,6 +507,12 @@ Fixpoint reg_ops (fuel : nat) (t : table) (l : list N) : list val :=
             | 8 => let '(r0, t1) := sanitise t in ([match fst r0 with ASuccess => VS "SUCCESS" | AUninit => VS "UNINITIALISED" | _ => VS "REFUSED" end], t1)
             | 9 => let '(r0, hs) := foreach_in t (g 0%nat) (g 1%nat) (map (fun x => (Z.of_N x - 1)%Z) (skipn 2 a)) in
                    ((accv' r0 ++ [VL (map VN hs)])%list, t)
+            | 11 => (* the caller edits the table description: register k gets a new address (to be followed by a new initialisation) *)
+                   match nth_error (t_entries t) (N.to_nat (g 0%nat)) with
+                   | Some e => ([VS "edit"], set_entries t (upd (t_entries t) (N.to_nat (g 0%nat))
+                                   {| e_type := e_type e; e_default := e_default e; e_addr := g 1%nat; e_check := e_check e; e_touched := e_touched e |}))
+                   | None => ([VS "edit"], t)
+                   end
             | _ => (* out-of-band corruption: area index, offset, word *)
                    match nth_error (t_areas t) (N.to_nat (g 0%nat)) with
                    | Some ar => ([VS "corrupt"], set_area t (N.to_nat (g 0%nat)) (area_write ar (g 1%nat) [g 2%nat]))
